@@ -386,6 +386,28 @@ func (v Value) Bool() bool {
 	return v.num != 0
 }
 
+// native is the Go value a scalar stands for, so that fmt verbs such as %d,
+// %x, %f, %t and %c apply to it; other values format through String.
+func (v Value) native() any {
+	switch v.t {
+	case TypeBool:
+		return v.Bool()
+	case TypeInt32, untypedInt:
+		return int32(v.num)
+	case TypeInt8:
+		return int8(v.num)
+	case TypeUint8:
+		return uint8(v.num)
+	case TypeUint32:
+		return uint32(v.num)
+	case TypeFloat64:
+		return v.num
+	case TypeString:
+		return v.String()
+	}
+	return v
+}
+
 // func (v Value) copy() Value { return v }
 
 // func (v Value) copy() Value {
